@@ -102,6 +102,11 @@ def handle (op : String) (j : Json) : Except String Json :=
       let t ← tblOf? (← field j "rows")
       let os ← getArr opOf? j "ops"
       .ok (resJson tblToJson (run recOff recLen os t))
+  | "c16.run_pool" => do
+      -- ops: [[receiver position, operation]…]; returns every list of the pool
+      let t ← tblOf? (← field j "rows")
+      let os ← getArr (pairOf? natOf? opOf?) j "ops"
+      .ok (resJson (listToJson tblToJson) (runPool recOff recLen os [t]))
   | "c16.obs" => do
       let s ← schemaOf (← getStr j "cls")
       let t ← tblOf? (← field j "rows")
